@@ -114,3 +114,18 @@ package sidx
 //@   requires qrh != nil
 //@   modifies qrh.cursors
 //@   ensures  len(qrh.cursors) == 0
+//
+//@ section C03 C13
+//
+// mergeParts, the loop that aggregates the optional timestamp range of the merged part (fragment contract: this loop only,
+// from an arbitrary state). When a range is produced it covers the range of every input part that has one; query-time
+// pruning (overlapsTimestampRange) skips a part whose advertised range misses the query window.
+//@ func sidx.mergeParts#time-range
+//@   mode int
+//@   opt fragment writes maxVal
+//@   requires !hasMinTS && !hasMaxTS
+//@   requires forall k :: 0 <= k && k < len(parts) ==> parts[k] != nil && parts[k].p != nil && parts[k].p.partMetadata != nil
+//@   ensures  min-covers: forall k :: 0 <= k && k < len(parts) && parts[k].p.partMetadata.MinTimestamp != nil ==> hasMinTS && minVal <= deref(parts[k].p.partMetadata.MinTimestamp)
+//@   ensures  max-covers: forall k :: 0 <= k && k < len(parts) && parts[k].p.partMetadata.MaxTimestamp != nil ==> hasMaxTS && deref(parts[k].p.partMetadata.MaxTimestamp) <= maxVal
+//@   loop 0 invariant forall k :: 0 <= k && k < range_i && parts[k].p.partMetadata.MinTimestamp != nil ==> hasMinTS && minVal <= deref(parts[k].p.partMetadata.MinTimestamp)
+//@   loop 0 invariant forall k :: 0 <= k && k < range_i && parts[k].p.partMetadata.MaxTimestamp != nil ==> hasMaxTS && deref(parts[k].p.partMetadata.MaxTimestamp) <= maxVal
